@@ -65,7 +65,7 @@ def plans(chk, tier, k):
     big = [x for x in A.boundary_sizes(k) if x > 2 * k["granularity"] + 1]
     seed = chk.seed * 101
     quick = tier == "quick"
-    reps1, base1 = (8, 3) if quick else (16, 5)
+    reps1, base1 = (8, 4) if quick else (16, 8)      # baseline = the first half of the repetitions
     out = []
 
     def add(threads, reps, base, nblocks, ops, zeroed, realloc, xfree, sizes, aligns, what):
@@ -77,9 +77,9 @@ def plans(chk, tier, k):
     add(1, reps1, base1, 40, 150 if quick else 400, 30, 30, 0, small, ALIGNS_ALL, "mixed small classes, every alignment")
     add(1, reps1, base1, 24, 200 if quick else 500, 85, 10, 0, small, [1, 8, 16, 64], "zeroed allocations over recycled memory")
     add(1, reps1, base1, 24, 200 if quick else 500, 10, 75, 0, small, [16, 32, 64, 256, 4096, 8192], "realloc of over-aligned blocks")
-    add(1, 6 if quick else 12, 2 if quick else 4, 4, 12, 50, 40, 0, big[:5], [16, 4096], "sizes around the trim threshold and above")
+    add(1, 6 if quick else 12, 3 if quick else 6, 4, 12, 50, 40, 0, big[:5], [16, 4096], "sizes around the trim threshold and above")
     if not quick:
-        add(1, 8, 3, 3, 8, 50, 40, 0, big, [16, 8192], "all large sizes")
+        add(1, 8, 4, 3, 8, 50, 40, 0, big, [16, 8192], "all large sizes")
     # ---- multi-threaded (the lock of GlobalDlMalloc)
     for threads in (2, 4):
         for xfree in (0, 1):
